@@ -1107,6 +1107,11 @@ func (fr *frame) builtin(name string, args []Value, c *ssa.CallCommon) Value {
 		return iface{}
 	case "print", "println":
 		return nil
+	case "ssa:wrapnilchk":
+		if p, ok := args[0].(*Value); ok && p == nil {
+			in.goPanicStr("value method " + mustStr(args[1], "wrapnilchk") + "." + mustStr(args[2], "wrapnilchk") + " called using nil pointer")
+		}
+		return args[0]
 	case "min", "max":
 		r := args[0]
 		for _, a := range args[1:] {
